@@ -108,6 +108,47 @@ Proof.
   apply (R_live_glive _ _ HR). exact Hn.
 Qed.
 
+(** ---- scopeOf: the result is the target or one of its children, and it is a ScopeBlock ---- *)
+Definition is_sb (s : pstate) (y : N) : Prop := exists o, tget (p_tree s) y = Some o /\ o_opcode o = aml_pOpIntScopeBlock.
+
+Lemma nestedScope_spec2 fuel : forall idx p s g, TI s g -> (idx = InvalidIndex \/ In idx (kids g p)) ->
+  wp True (nestedScope_go fuel idx) s (fun r s' => s' = s /\ forall y, r = Some y -> In y (kids g p) /\ is_sb s y).
+Proof.
+  induction fuel as [|fuel IH]; intros idx p s g H Hidx; cbn [nestedScope_go].
+  { apply wp_outOfFuel. exact I. }
+  pose proof (ti_R _ _ H) as HR.
+  destruct (N.eqb_spec idx InvalidIndex) as [E|E].
+  { apply wp_ret. split; auto. discriminate. }
+  destruct Hidx as [?|Hin]; [contradiction|].
+  destruct ((R_gwf _ _ HR) _ _ Hin) as (Hlp & Hl).
+  apply wp_bind. apply wp_objectAt'; [apply (TI_ObjectAt _ _ _ H Hl)|].
+  destruct (in_split _ _ Hin) as (l1 & l2 & Ek).
+  destruct (sibling_links _ _ HR _ l1 idx l2 Hlp Ek) as (o & Ho & Hlo & _ & _ & En & _).
+  apply wp_bind. apply wp_rdf. exists o. split; [exact Ho|].
+  destruct (N.eqb_spec (o_opcode o) aml_pOpIntScopeBlock) as [Eop|Eop].
+  { apply wp_ret. split; auto. intros y Ey. inversion Ey; subst. split; [exact Hin|]. exists o. auto. }
+  apply wp_bind. apply wp_rdf. exists o. split; [exact Ho|].
+  apply IH; auto. rewrite En. destruct l2 as [|z l2]; [left; reflexivity|right]. cbn [hd].
+  rewrite Ek. apply in_or_app. right. right. left. reflexivity.
+Qed.
+
+Lemma scopeOf_spec2 target s g : TI s g -> glive g target ->
+  wp True (scopeOf target) s (fun r s' => s' = s /\ forall y, r = Some y -> (y = target \/ In y (kids g target)) /\ is_sb s y).
+Proof.
+  intros H Hl. unfold scopeOf. pose proof (ti_R _ _ H) as HR.
+  apply wp_bind. apply wp_objectAt'; [apply (TI_ObjectAt _ _ _ H Hl)|].
+  destruct (TI_live_get _ _ _ H Hl) as (o & Ho & Hlo).
+  apply wp_bind. apply wp_rdf. exists o. split; [exact Ho|].
+  destruct (N.eqb_spec (o_opcode o) aml_pOpIntScopeBlock) as [Eop|Eop].
+  { apply wp_ret. split; auto. intros y Ey. inversion Ey; subst. split; [left; reflexivity|]. exists o. auto. }
+  apply wp_bind. apply wp_rdf. exists o. split; [exact Ho|].
+  apply wp_bind, wp_get.
+  eapply wp_weaken; [apply (nestedScope_spec2 _ (o_first o) target s g H)|auto|].
+  - destruct (R_kids _ _ HR _ _ Ho Hlo) as (Hf & _). rewrite Hf.
+    destruct (kids g target) as [|c l]; [left; reflexivity|right; left; reflexivity].
+  - intros r s' (-> & Hr). split; auto. intros y Ey. destruct (Hr y Ey). split; auto.
+Qed.
+
 (** ---- moving an object anywhere ---- *)
 Definition shape_eq (g g' : ghost) : Prop := length (g_kids g') = length (g_kids g) /\ g_free g' = g_free g.
 Definition roots_iff (g g' : ghost) : Prop := forall y, glive g y -> (groot g' y <-> groot g y).
@@ -193,12 +234,26 @@ Qed.
 Definition okroot (s : pstate) (g : ghost) (x : N) : Prop :=
   groot g x -> exists o, tget (p_tree s) x = Some o /\ o_opcode o = aml_pOpIntScopeBlock.
 
-Definition rlpost (g : ghost) (s' : pstate) (g' : ghost) : Prop := TI s' g' /\ shape_eq g g' /\ roots_iff g g'.
+(** [J] is any further invariant that the caller wants to carry through the pass: it has to survive a change of the
+    counters and one relocation (the named object [x] moves from [par] to the ScopeBlock [tg], the value of its first
+    child is rewritten) *)
+Section Reloc.
+Variable J : pstate -> ghost -> Prop.
+Hypothesis J_counters : forall s g a b c, J s g -> J (with_counters s a b c) g.
+Hypothesis J_reloc : forall s g x xo op fl af par tg (t2 : T) g2 v,
+  TI s g -> J s g -> tget (p_tree s) x = Some xo -> opInfo (o_infoIndex xo) = Some (op, fl, af) ->
+  hasFlag fl aml_pOpFlagNamed = true -> o_opcode xo <> aml_pOpIntScopeBlock -> o_tableHandle xo = p_handle s ->
+  In x (kids g par) -> is_sb s tg -> glive g tg -> kids g x <> [] ->
+  pframe (p_tree s) t2 -> shape_eq g g2 -> roots_iff g g2 ->
+  (forall q, kids g2 q = (if q =? par then remove1 x (kids g par) else kids g q) ++ (if q =? tg then [x] else [])) ->
+  J (with_tree s (tset t2 (hd InvalidIndex (kids g x)) (set_value v))) g2.
 
-Definition RL_spec (fuel : nat) : Prop := forall x s g, TI s g -> glive g 0 -> glive g x -> okroot s g x ->
+Definition rlpost (g : ghost) (s' : pstate) (g' : ghost) : Prop := TI s' g' /\ shape_eq g g' /\ roots_iff g g' /\ J s' g'.
+
+Definition RL_spec (fuel : nat) : Prop := forall x s g, TI s g -> J s g -> glive g 0 -> glive g x -> okroot s g x ->
   wp True (relocateNamedObjects fuel x) s (fun r s' => exists g', rlpost g s' g').
 
-Definition RLloop_spec (fuel : nat) : Prop := forall sib res s g, TI s g -> glive g 0 ->
+Definition RLloop_spec (fuel : nat) : Prop := forall sib res s g, TI s g -> J s g -> glive g 0 ->
   (sib = InvalidIndex \/ (glive g sib /\ ~ groot g sib)) ->
   wp True (relocate_loop fuel sib res) s (fun r s' => exists g', rlpost g s' g').
 
@@ -210,14 +265,14 @@ Proof. intros [A B C]. constructor; auto. Qed.
 
 Lemma rlpost_trans g g1 s' g' : shape_eq g g1 -> roots_iff g g1 -> rlpost g1 s' g' -> rlpost g s' g'.
 Proof.
-  intros S1 R1 (F1 & F2 & F3). split; auto. split; [eapply shape_eq_trans; eauto|eapply roots_iff_trans; eauto].
+  intros S1 R1 (F1 & F2 & F3 & F4). split; auto. split; [eapply shape_eq_trans; eauto|]. split; [eapply roots_iff_trans; eauto|exact F4].
 Qed.
 
 Lemma step_RLloop fuel : RL_spec fuel -> RLloop_spec fuel -> RLloop_spec (S fuel).
 Proof.
-  intros IHc IHl sib res s g H H0 Hsib. cbn [relocate_loop].
+  intros IHc IHl sib res s g H HJ H0 Hsib. cbn [relocate_loop].
   destruct (N.eqb_spec sib InvalidIndex) as [Ei|Ei].
-  { apply wp_ret. exists g. split; auto. split; [apply shape_eq_refl|apply roots_iff_refl]. }
+  { apply wp_ret. exists g. split; auto. split; [apply shape_eq_refl|]. split; [apply roots_iff_refl|exact HJ]. }
   destruct Hsib as [?|(Hl & Hnr)]; [contradiction|].
   pose proof (ti_R _ _ H) as HR.
   apply wp_bind. apply wp_objectAt'; [apply (TI_ObjectAt _ _ _ H Hl)|].
@@ -233,20 +288,20 @@ Proof.
     destruct l2 as [|y l2']; [left; reflexivity|right]. cbn [hd].
     assert (Hy : In y (kids g (o_parent o))) by (rewrite Ek; apply in_or_app; right; right; left; reflexivity).
     split; [apply ((R_gwf _ _ HR) _ _ Hy)|]. intros Hr. apply (Hr _ Hy). }
-  apply wp_bind. eapply wp_weaken; [apply (IHc sib s g H H0 Hl)|auto|].
+  apply wp_bind. eapply wp_weaken; [apply (IHc sib s g H HJ H0 Hl)|auto|].
   { intros Hr. contradiction. }
-  intros r s1 (g1 & H1 & S1 & R1).
+  intros r s1 (g1 & H1 & S1 & R1 & J1).
   assert (H01 : glive g1 0) by (apply (shape_eq_glive _ _ _ S1); exact H0).
   assert (Hnx1 : o_next o = InvalidIndex \/ (glive g1 (o_next o) /\ ~ groot g1 (o_next o))).
   { destruct Hnx as [E|(A & B)]; [left; exact E|right]. split; [apply (shape_eq_glive _ _ _ S1); exact A|].
     intros Hr. apply B. apply (R1 _ A). exact Hr. }
   destruct r.
   - apply wp_ret. exists g1. split; auto.
-  - eapply wp_weaken; [apply (IHl (o_next o) res s1 g1 H1 H01 Hnx1)|auto|].
+  - eapply wp_weaken; [apply (IHl (o_next o) res s1 g1 H1 J1 H01 Hnx1)|auto|].
     intros r' s' (g' & F). exists g'. eapply rlpost_trans; eauto.
-  - eapply wp_weaken; [apply (IHl (o_next o) res s1 g1 H1 H01 Hnx1)|auto|].
+  - eapply wp_weaken; [apply (IHl (o_next o) res s1 g1 H1 J1 H01 Hnx1)|auto|].
     intros r' s' (g' & F). exists g'. eapply rlpost_trans; eauto.
-  - eapply wp_weaken; [apply (IHl (o_next o) RExtra s1 g1 H1 H01 Hnx1)|auto|].
+  - eapply wp_weaken; [apply (IHl (o_next o) RExtra s1 g1 H1 J1 H01 Hnx1)|auto|].
     intros r' s' (g' & F). exists g'. eapply rlpost_trans; eauto.
 Qed.
 
@@ -265,7 +320,7 @@ Qed.
 
 Lemma step_RL fuel : RLloop_spec fuel -> RL_spec (S fuel).
 Proof.
-  intros IHl x s g H H0 Hl Hok. cbn [relocateNamedObjects].
+  intros IHl x s g H HJ H0 Hl Hok. cbn [relocateNamedObjects].
   pose proof (ti_R _ _ H) as HR.
   apply wp_bind. apply wp_objectAt'; [apply (TI_ObjectAt _ _ _ H Hl)|].
   destruct (TI_live_get _ _ _ H Hl) as (oo & Hoo & Hloo).
@@ -275,38 +330,38 @@ Proof.
   apply wp_bind. eapply wp_info; [exact Erow|].
   (* the counter reset does not touch the tree *)
   assert (Hcnt : forall (Q : unit -> pstate -> Prop),
-     (forall s1, TI s1 g -> p_tree s1 = p_tree s -> p_tables s1 = p_tables s -> Q tt s1) ->
+     (forall s1, TI s1 g -> J s1 g -> p_tree s1 = p_tree s -> p_tables s1 = p_tables s -> Q tt s1) ->
      wp True (if x =? 0 then fun s0 => Ok (tt, with_counters s0 (p_resolvePasses s0) (p_mergedScopes s0) 0) else ret tt) s Q).
   { intros Q K. destruct (x =? 0); [apply wp_counters|apply wp_ret]; apply K; auto. apply TI_counters. exact H. }
-  apply wp_bind. apply Hcnt. intros s1 H1 Et1 Etb1.
+  apply wp_bind. apply Hcnt. intros s1 H1 HJ1 Et1 Etb1.
   assert (Hoo1 : tget (p_tree s1) x = Some oo) by (rewrite Et1; exact Hoo).
   destruct (hasFlag fl aml_pOpFlagExecutable).
-  { apply wp_ret. exists g. split; auto. split; [apply shape_eq_refl|apply roots_iff_refl]. }
+  { apply wp_ret. exists g. split; auto. split; [apply shape_eq_refl|]. split; [apply roots_iff_refl|exact HJ1]. }
   apply wp_bind, wp_get.
   (* the loop over the children *)
-  assert (Hloop : forall s2 g2, TI s2 g2 -> shape_eq g g2 -> roots_iff g g2 -> kids g2 x = kids g x ->
+  assert (Hloop : forall s2 g2, TI s2 g2 -> J s2 g2 -> shape_eq g g2 -> roots_iff g g2 -> kids g2 x = kids g x ->
      wp True (mlet first <~ rdf x o_first ;; relocate_loop fuel first ROk) s2 (fun r s' => exists g', rlpost g s' g')).
-  { intros s2 g2 H2 S2 R2 Hk2. pose proof (ti_R _ _ H2) as HR2.
+  { intros s2 g2 H2 J2 S2 R2 Hk2. pose proof (ti_R _ _ H2) as HR2.
     assert (Hl2 : glive g2 x) by (apply (shape_eq_glive _ _ _ S2); exact Hl).
     destruct (TI_live_get _ _ _ H2 Hl2) as (o2 & Ho2 & Hlo2).
     apply wp_bind. apply wp_rdf. exists o2. split; [exact Ho2|].
     destruct (R_kids _ _ HR2 _ _ Ho2 Hlo2) as (Hf2 & _). rewrite Hf2.
-    eapply wp_weaken; [apply (IHl (hd InvalidIndex (kids g2 x)) ROk s2 g2 H2)|auto|].
+    eapply wp_weaken; [apply (IHl (hd InvalidIndex (kids g2 x)) ROk s2 g2 H2 J2)|auto|].
     - apply (shape_eq_glive _ _ _ S2). exact H0.
     - destruct (kids g2 x) as [|c l] eqn:Ek; [left; reflexivity|right]. cbn [hd].
       assert (Hc : In c (kids g2 x)) by (rewrite Ek; left; reflexivity).
       split; [apply ((R_gwf _ _ HR2) _ _ Hc)|]. intros Hr. apply (Hr _ Hc).
     - intros r s' (g' & F). exists g'. eapply rlpost_trans; eauto. }
   assert (Hskip : wp True (mlet first <~ rdf x o_first ;; relocate_loop fuel first ROk) s1 (fun r s' => exists g', rlpost g s' g'))
-    by (apply (Hloop s1 g H1 (shape_eq_refl g) (roots_iff_refl g) eq_refl)).
+    by (apply (Hloop s1 g H1 HJ1 (shape_eq_refl g) (roots_iff_refl g) eq_refl)).
   assert (Hfail : forall (r : pres), wp True (ret r) s1 (fun r s' => exists g', rlpost g s' g')).
-  { intros r. apply wp_ret. exists g. split; auto. split; [apply shape_eq_refl|apply roots_iff_refl]. }
+  { intros r. apply wp_ret. exists g. split; auto. split; [apply shape_eq_refl|]. split; [apply roots_iff_refl|exact HJ1]. }
   apply wp_bind.
   destruct (hasFlag fl aml_pOpFlagNamed && negb (o_first oo =? InvalidIndex) && (o_tableHandle oo =? p_handle s1) &&
             negb (o_opcode oo =? aml_pOpIntScopeBlock)) eqn:Econd.
   2:{ apply wp_ret. exact Hskip. }
-  apply andb_prop in Econd. destruct Econd as (Econd & Enotsb). apply andb_prop in Econd. destruct Econd as (Econd & _).
-  apply andb_prop in Econd. destruct Econd as (_ & Efirst).
+  apply andb_prop in Econd. destruct Econd as (Econd & Enotsb). apply andb_prop in Econd. destruct Econd as (Econd & Ehandle).
+  apply andb_prop in Econd. destruct Econd as (Enamed & Efirst). apply N.eqb_eq in Ehandle.
   apply negb_true_iff in Enotsb. apply N.eqb_neq in Enotsb. apply negb_true_iff in Efirst. apply N.eqb_neq in Efirst.
   pose proof (ti_R _ _ H1) as HR1.
   destruct (R_kids _ _ HR1 _ _ Hoo1 Hloo) as (Hfirst & _).
@@ -344,10 +399,12 @@ Proof.
   destruct (N.eqb_spec target InvalidIndex) as [Et|Et].
   { apply wp_bind, wp_get. destruct (aml_maxResolvePasses <? p_resolvePasses s1); apply wp_ret; apply Hfail. }
   destruct Htarget as [?|Hlt]; [contradiction|].
-  apply wp_bind. eapply wp_weaken; [apply (scopeOf_spec target s1 g H1 Hlt)|auto|].
+  apply wp_bind. eapply wp_weaken; [apply (scopeOf_spec2 target s1 g H1 Hlt)|auto|].
   intros tgt s1' (-> & Htgt).
   destruct tgt as [targetObj|]; [|apply wp_ret; apply Hfail].
-  specialize (Htgt targetObj eq_refl).
+  destruct (Htgt targetObj eq_refl) as (Htg_where & Htg_sb). clear Htgt.
+  assert (Htgt : glive g targetObj).
+  { destruct Htg_where as [->|Hin0]; [exact Hlt|]. apply ((R_gwf _ _ HR1) _ _ Hin0). }
   apply wp_bind, wp_get.
   apply wp_bind. eapply wp_weaken; [apply (insideSelf_spec _ targetObj x s1 g H1 Htgt)|auto|].
   intros inside s1' (-> & Hinside).
@@ -359,7 +416,7 @@ Proof.
   { exfalso. destruct (Hok Hr) as (o' & Ho' & Hop'). assert (o' = oo) by congruence. subst o'. contradiction. }
   apply wp_bind, wp_get. rewrite (TI_ObjectAt _ _ _ H1 Hlp).
   eapply (move_gen True (o_parent oo) x targetObj _ s1 g); [exact H1|exact Hin|exact Htgt|exact Hinside|].
-  intros t2 g2 H2 S2 R2 Hk2 _ _ _.
+  intros t2 g2 H2 S2 R2 Hk2 _ Hpf2 Hkf2.
   pose proof (ti_R _ _ H2) as HR2.
   assert (Hl2 : glive g2 x) by (apply (shape_eq_glive _ _ _ S2); exact Hl).
   destruct (TI_live_get _ _ _ H2 Hl2) as (o2 & Ho2 & Hlo2).
@@ -379,6 +436,12 @@ Proof.
       rewrite Hp. replace (p_tables (with_tree s1 t2)) with (p_tables s1) by reflexivity.
       apply (slice_tail_ok _ tbl p (s_len sl)); [unfold aml_amlNameLen in Elen; lia|].
       exists d. split; auto. right. exists p. destruct sl as [ptr len]. cbn [s_ptr s_len] in *. subst ptr. auto. }
+  assert (J3 : J s3 g2).
+  { unfold s3. assert (Ekx : kids g x <> []) by (rewrite Ek; discriminate).
+    pose proof (J_reloc s1 g x oo op fl af (o_parent oo) targetObj t2 g2
+      (Some (bytesValue tbl (mkSlice (match s_ptr sl with Some p => Some (p + (s_len sl - aml_amlNameLen)) | None => None end) aml_amlNameLen)))
+      H1 HJ1 Hoo1 Erow Enamed Enotsb Ehandle Hin Htg_sb Htgt Ekx Hpf2 S2 R2 Hkf2) as JJ.
+    rewrite Ek in JJ. cbn [hd] in JJ. exact JJ. }
   apply wp_bind. apply wp_counters. apply wp_ret.
   apply (Hloop _ g2); auto. apply TI_counters. exact H3.
 Qed.
@@ -389,6 +452,7 @@ Proof.
   - split; intro; intros; cbn [relocateNamedObjects relocate_loop]; apply wp_outOfFuel; exact I.
   - split; [apply step_RL; exact IHl|apply step_RLloop; assumption].
 Qed.
+End Reloc.
 
 (** relocateNamedObjects from the root scope: never panics, keeps the invariants *)
 Theorem relocateNamedObjects_never_panics : forall fuel s g,
@@ -401,7 +465,7 @@ Theorem relocateNamedObjects_never_panics : forall fuel s g,
   end.
 Proof.
   intros fuel s g HR Hi Hp H0 Hroot.
-  pose proof (proj1 (reloc_all fuel) 0 s g (mkTI _ _ HR Hi Hp) H0 H0 (fun _ => Hroot)) as W. unfold wp in W.
+  pose proof (proj1 (reloc_all (fun _ _ => True) (fun _ _ _ _ _ _ => I) ltac:(intros; exact I) fuel) 0 s g (mkTI _ _ HR Hi Hp) I H0 H0 (fun _ => Hroot)) as W. unfold wp in W.
   destruct (relocateNamedObjects fuel 0 s) as [[r s']| |]; auto.
   destruct W as (g' & [A B C] & S' & _). exists g'. split; auto. split; auto. split; auto.
   apply (shape_eq_glive _ _ _ S'). exact H0.
